@@ -4,6 +4,8 @@
 package main
 
 import (
+	"path/filepath"
+	"runtime"
 	"bufio"
 	"encoding/json"
 	"flag"
@@ -175,7 +177,14 @@ func runWithWatchdog(f func(), d time.Duration) {
 	select {
 	case <-done:
 	case <-time.After(d):
-		fmt.Fprintf(os.Stderr, "fatal error: verif watchdog: case exceeded %v (hang)\n", d)
+		// where is everybody? (kept by the supervisor in the replay file)
+		buf := make([]byte, 1<<20)
+		n := runtime.Stack(buf, true)
+		if dir := os.Getenv("VERIF_TMP_ROOT"); dir != "" {
+			os.WriteFile(filepath.Join(dir, fmt.Sprintf("hang-stacks-%d.txt", os.Getpid())), buf[:n], 0644)
+		}
+		os.Stderr.Write(buf[:n])
+		fmt.Fprintf(os.Stderr, "\nfatal error: verif watchdog: case exceeded %v (hang)\n", d)
 		os.Exit(4)
 	}
 }
